@@ -441,7 +441,6 @@ package goose
 //@ func ffisUsed$1 (pkg)
 //@   ensures [the walk does not descend into FFI packages] result == !has(ffiMapping, pkg.PkgPath)
 //@ func ffisUsed$2 (pkg)
-//@   requires [map allocated by ffisUsed] *seenFfis != nil
 //@   ensures [an FFI package contributes its FFI] has(ffiMapping, pkg.PkgPath) ==> has(*seenFfis, ffiMapping[pkg.PkgPath])
 //@   ensures [nothing is removed] forall v string :: old(has(*seenFfis, v)) ==> has(*seenFfis, v)
 //@   ensures [nothing else is added] forall v string :: has(*seenFfis, v) && !old(has(*seenFfis, v)) ==> has(ffiMapping, pkg.PkgPath) && v == ffiMapping[pkg.PkgPath]
